@@ -41,16 +41,37 @@ def _count_leaf(val):
 
 
 def padding_terms(b, tm):
-    """loop bounds `0..padding` : terms of Range aggregates whose end involves count()."""
-    out = []
+    """Where the padding count goes: loop bounds `0..f(count)`, lengths handed to local helpers, vector sizes -
+    terms that mention the byte counter, depend on nothing else, and are < 4 for every count."""
+    cands = []
     for blk in b.blocks:
         if blk.cleanup:
             continue
         for s in blk.stmts:
             if s.k == "assign" and s.rv.k == "aggregate" and s.rv.agg == "adt" and s.rv.adt_name.endswith("Range") and len(s.rv.ops) == 2:
-                e = tm.of_operand(s.rv.ops[1])
-                if pat.has_call(e, "CountBufRead::count"):
-                    out.append((blk.idx, tm.of_operand(s.rv.ops[0]), e))
+                cands.append((blk.idx, tm.of_operand(s.rv.ops[0]), tm.of_operand(s.rv.ops[1])))
+        t = blk.term
+        if t.k == "call" and t.callee is not None and (t.callee.target().local or (flow.callee(t) or "").endswith("from_elem")):
+            for a in t.args:
+                if a.ty.k in ("uint", "int"):
+                    cands.append((blk.idx, ("const", 0), tm.of_operand(a)))
+    out = []
+    seen = set()
+    for bb, lo, e in cands:
+        if not pat.has_call(e, "CountBufRead::count") or e in seen:
+            continue
+        try:
+            vals = [pat.eval_term(e, _count_leaf(c_)) for c_ in range(0, 8)]
+        except (pat.NotEvaluable, pat.Overflow):
+            vals = None
+        if vals is None:
+            # a loop bound over the counter that cannot be evaluated is still a padding site (reported by the rule)
+            if lo == ("const", 0) and any(x[0] == bb for x in cands if x[1] == lo) and not pat.spine_ops(e) - {"BitAnd", "BitXor", "Add", "Sub", "Rem"}:
+                out.append((bb, lo, e))
+            continue
+        if max(vals) < 4 and vals[0] == 0:
+            seen.add(e)
+            out.append((bb, lo, e))
     return out
 
 
@@ -549,6 +570,25 @@ def rule_loop(facts):
     return r
 
 
+def rule_fragmentation(facts):
+    """"Every well-formed file decodes" includes every reader: the container parser must not let the size of a peeked
+    buffer decide anything (C13.R1 restricted to the container code)."""
+    from rules import C13
+    r = report.RuleResult("C03.R8", "the container parser's verdict does not depend on how the reader fragments the input")
+    src = C13.rule_fill_buf(facts)
+    n = 0
+    for f in src.findings:
+        if "decode::xz" in (f.where + f.key) or "decode::util" in (f.where + f.key) or f.key.startswith("floor"):
+            f.rule = "C03.R8"
+            r.findings.append(f)
+            r.obligations += 1
+    r.sites = src.sites
+    r.need("fill_buf sites of the container code analysed", src.sites >= 2)
+    if not r.findings:
+        r.ok("provenance", {"peeked buffers": "used for emptiness tests, the scan-and-consume-all loop and forwarders only", "sites": src.sites})
+    return r
+
+
 def _ok_sources(b):
     """blocks that assign an Ok aggregate to the return place."""
     out = []
@@ -566,7 +606,7 @@ def run(ctx, t0):
     facts = ctx.facts()
     pat.FACTS = facts
     rules = [rule_padding(facts), rule_multibyte(facts), rule_header_size(facts), rule_accounting(facts), rule_check_field(facts),
-             rule_optional(facts), rule_loop(facts)]
+             rule_optional(facts), rule_loop(facts), rule_fragmentation(facts)]
     expl = ("Static, container-arithmetic clauses only: the padding, header-size, unpadded-size and filter-count terms are "
             "extracted from MIR and evaluated under the compiled integer widths over their whole (or a residue-covering) "
             "finite domain and compared with the format's formulas; control dependence of optional fields and of the block "
